@@ -90,6 +90,20 @@ class Concurrent(Suite):
                 ev = [[16 + 1, {"k": "resp", "id": {"$CALLER": first}, "p": {"for": first}}],
                       [16 + 2 + gap, {"k": "resp", "id": {"$CALLER": 1 - first}, "p": {"for": 1 - first}}]]
                 out.append({"callers": [{"id": ids[0], "start": 0, "D": 4 * P + 256}, {"id": ids[1], "start": 1, "D": 4 * P + 256}], "ev": ev})
+        # SEQUENTIAL use of one connection (no model: oracle only): the second call must not be
+        # disturbed by what the first left behind (late / duplicate / early answers, state kept by
+        # the library between calls)
+        for auto in (False, True):
+            for tie in ("events", "io"):
+                ids = [None, None] if auto else [{"s": "seq-0"}, {"s": "seq-1"}]
+                two = [{"id": ids[0], "start": 0, "D": 300}, {"id": ids[1], "start": 400, "D": 2 * P}]
+                r = lambda i, a, tag: [a, {"k": "resp", "id": {"$CALLER": i}, "p": {"for": i, "tag": tag}}]
+                for ev in ([r(0, 100, "a"), r(1, 500, "b")],
+                           [r(0, 450, "late"), r(1, 460, "b")],
+                           [r(0, 100, "a"), r(0, 450, "dup"), r(1, 470, "b")],
+                           [r(0, 100, "a"), [430, {"k": "notif", "method": "notifications/message"}], r(1, 440, "b")],
+                           [[120, {"k": "err", "id": {"$CALLER": 0}, "code": -32603, "msg": "x"}], r(1, 900, "b")]):
+                    out.append({"callers": [dict(c) for c in two], "ev": ev, "tie": tie, "sequential": True})
         rng = ctx.sub_rng("c18", budget)
         m = 4000 if budget == "quick" else 100000
         for _ in range(m):
@@ -109,6 +123,8 @@ class Concurrent(Suite):
         return S.run_case(case)
 
     def model_line(self, case, o=None):
+        if case.get("sequential"):
+            return None  # late starters: compared by the oracle only
         return S.model_line(case, o)
 
     def model_obs(self, out, case):
